@@ -152,8 +152,32 @@ class Recorder:
 # ---------------------------------------------------------------------------
 # Hypothesis driving
 # ---------------------------------------------------------------------------
+class _CaseCpuTimeout(BaseException):
+    pass
+
+
+def cpu_guarded(fn, case, limit_s):
+    """Call fn(case); if it burns more than limit_s seconds of *CPU time* (ITIMER_VIRTUAL: independent of machine
+    load, so not a wall-clock oracle) the case is reported as non-terminating. Only code that returns to the
+    interpreter can be interrupted this way (a loop inside a C extension cannot)."""
+    import signal
+
+    def on_timer(signum, frame):
+        raise _CaseCpuTimeout()
+
+    old = signal.signal(signal.SIGVTALRM, on_timer)
+    signal.setitimer(signal.ITIMER_VIRTUAL, limit_s)
+    try:
+        return fn(case)
+    except _CaseCpuTimeout:
+        raise Violation('did-not-terminate', 'the case used more than %d s of CPU time (typical: well under a second) and was abandoned' % limit_s, case)
+    finally:
+        signal.setitimer(signal.ITIMER_VIRTUAL, 0)
+        signal.signal(signal.SIGVTALRM, old)
+
+
 def hyp_run(rec, strategy, oracle, max_examples, seed, shrink=True, max_buckets=4,
-            shrink_budget_s=60.0, stateful_step_count=None):
+            shrink_budget_s=60.0, stateful_step_count=None, case_cpu_s=None):
     """Run `oracle(case)` over `strategy` with Hypothesis.
 
     oracle raises Violation on failure. Violations in a known class are counted
@@ -164,6 +188,7 @@ def hyp_run(rec, strategy, oracle, max_examples, seed, shrink=True, max_buckets=
     import hypothesis
     from hypothesis import given, settings, HealthCheck, Phase
     excluded = set()
+    limit = case_cpu_s or getattr(getattr(rec, '_module', None), 'CASE_CPU_LIMIT_S', None) or float(os.environ.get('VERIF_CASE_CPU_S', '900'))
     phases = [Phase.generate] + ([Phase.shrink] if shrink else [])
     for _ in range(max_buckets):
         state = {'t0': None, 'last': None, 'failing': {}}
@@ -180,7 +205,7 @@ def hyp_run(rec, strategy, oracle, max_examples, seed, shrink=True, max_buckets=
                 # stop shrinking: abort the run and report the best failure found so far
                 raise _ShrinkTimeout()
             try:
-                oracle(case)
+                cpu_guarded(oracle, case, limit)
             except Violation as v:
                 if v.sig in excluded:
                     rec.note('excluded-bucket:' + v.sig)
